@@ -1,7 +1,7 @@
 import StoneVerif.Lemmas.FeCompileInv
 set_option linter.unusedSimpArgs false
 /-!
-`compile fs = .ok api → denote fs = some api`: passes 5 and 6 and the assembly of the Api against the
+`compileCore fs = .ok api → denoteCore fs = some api`: passes 5 and 6 and the assembly of the Api against the
 specification-level image.
 -/
 namespace StoneVerif.FeCompile.L
@@ -276,8 +276,8 @@ theorem assemble_denote {rx E fs st en} (hE : EnvOK E fs) (hI : Inv rx E fs st) 
             simp only [List.map_cons, optMapM, ih]
             simp [denoteNs, specDecls, h1, h2, h3, h4', h4]
 
-theorem compile_denote {rx fs api} (h : compile rx fs = .ok api) : denote rx fs = some api := by
-  unfold compile at h
+theorem compile_denote {rx fs api} (h : compileCore rx fs = .ok api) : denoteCore rx fs = some api := by
+  unfold compileCore at h
   split at h
   · cases h
   · rename_i E hEb
@@ -303,7 +303,7 @@ theorem compile_denote {rx fs api} (h : compile rx fs = .ok api) : denote rx fs 
               obtain ⟨hmap, hrs⟩ := pass6Nss_spec hroutes
               rw [hE.files] at hrs
               have := assemble_denote hE hI hEn hrs (by rw [hmap]; exact hcomp) hnss
-              unfold denote
+              unfold denoteCore
               rw [← hE.nss, ← hmap, this]
               rfl
 
